@@ -1,6 +1,7 @@
 package main
 
 import (
+	"strconv"
 	"fmt"
 	"go/types"
 	"regexp"
@@ -529,13 +530,35 @@ func (c *Ctx) nodePath(fn *ssa.Function, v ssa.Value, use ssa.Instruction, path 
 		if g != nil && c.W.InRepo(g) && g != fn && len(g.Blocks) > 0 {
 			rets := returnsOf(g)
 			if len(rets) == 1 && len(rets[0].Results) == 1 {
+				nodePathDepth++
 				inner := c.nodePath(g, rets[0].Results[0], rets[0], path...)
+				nodePathDepth--
+				// the helper stored one of its parameters there: go on in the caller, with the argument
+				if strings.HasPrefix(inner, "\x01") {
+					parts := strings.SplitN(inner[1:], "\x01", 2)
+					k, err := strconv.Atoi(parts[0])
+					if err == nil && k < len(x.Call.Args) && len(parts) == 2 {
+						var rest []string
+						if parts[1] != "" {
+							rest = strings.Split(parts[1], ".")
+						}
+						return c.nodePath(fn, x.Call.Args[k], x, rest...)
+					}
+				}
 				return c.substParams(fn, x, inner)
 			}
+		}
+	case *ssa.Parameter:
+		if k := paramIndex(fn, x); k >= 0 && nodePathDepth > 0 {
+			return "\x01" + strconv.Itoa(k) + "\x01" + strings.Join(path, ".")
 		}
 	}
 	return c.term(fn, v) + "." + strings.Join(path, ".")
 }
+
+// nodePathDepth > 0 while nodePath is resolving inside a constructor helper (a parameter
+// reached there is continued in the caller).
+var nodePathDepth = 0
 
 // edgeFeasible: false only when the reaching condition of pred conjoined with the condition
 // of the edge pred->succ is contradictory (no way of arriving through that edge).
